@@ -44,3 +44,79 @@ pub fn vecdeque_grow<T, A: core::alloc::Allocator>(_d: &mut std::collections::Ve
 pub fn smallvec_reserve_one<A: smallvec::Array>(_v: &mut smallvec::SmallVec<A>) {
     assert!(false, "S7 precondition: the inline capacity of the edge list is never exceeded");
 }
+
+/// S8: `<usize as Display>::fmt` -> one decimal digit written as a CONCRETE literal per case
+/// (`value < 8` asserted inside the stub, so the stub is exact whenever the harness verifies).
+/// Exact for `{}` without flags or width, the only way the exporters render integers. Two reasons:
+/// the real implementation divides a symbolic 64-bit value by 10000/100 in a loop (13 GB for one
+/// `{}` in CBMC); and handing the oracle sink a *symbolic* byte makes every branch of its byte
+/// classifier live (is it a newline? a quote?), whereas a case split hands it constants.
+pub fn fmt_usize(v: &usize, f: &mut core::fmt::Formatter<'_>) -> core::fmt::Result {
+    let v = *v;
+    assert!(v < 8, "S8 precondition: only integers below 8 are rendered inside the bound");
+    if v == 0 {
+        f.write_str("0")
+    } else if v == 1 {
+        f.write_str("1")
+    } else if v == 2 {
+        f.write_str("2")
+    } else if v == 3 {
+        f.write_str("3")
+    } else if v == 4 {
+        f.write_str("4")
+    } else if v == 5 {
+        f.write_str("5")
+    } else if v == 6 {
+        f.write_str("6")
+    } else {
+        f.write_str("7")
+    }
+}
+
+/// S4b: `Formatter::pad(s)` -> `s` written byte by byte, each byte as a CONCRETE one-byte literal
+/// chosen by a case split over the alphabet the exporters render through `{}` of a string
+/// (`ACGT`, `+`, `-`, `L`, `R`); length <= 8 and membership are asserted inside the stub. Exact
+/// for `{}` without width/precision whenever the harness verifies.
+pub fn fmt_pad_split<'a>(f: &mut core::fmt::Formatter<'a>, s: &str) -> core::fmt::Result
+where
+    'a: 'a,
+{
+    let b = s.as_bytes();
+    assert!(b.len() <= 8, "S4b precondition: strings of at most 8 bytes");
+    pad_one(f, b, 0)?;
+    pad_one(f, b, 1)?;
+    pad_one(f, b, 2)?;
+    pad_one(f, b, 3)?;
+    pad_one(f, b, 4)?;
+    pad_one(f, b, 5)?;
+    pad_one(f, b, 6)?;
+    pad_one(f, b, 7)
+}
+#[inline(always)]
+fn pad_one(f: &mut core::fmt::Formatter<'_>, b: &[u8], i: usize) -> core::fmt::Result {
+    if i >= b.len() {
+        return Ok(());
+    }
+    let c = b[i];
+    if c == b'A' {
+        f.write_str("A")
+    } else if c == b'C' {
+        f.write_str("C")
+    } else if c == b'G' {
+        f.write_str("G")
+    } else if c == b'T' {
+        f.write_str("T")
+    } else if c == b'+' {
+        f.write_str("+")
+    } else if c == b'-' {
+        f.write_str("-")
+    } else if c == b'L' {
+        f.write_str("L")
+    } else if c == b'R' {
+        f.write_str("R")
+    } else {
+        assert!(false, "S4b precondition: only ACGT+-LR are rendered through Display of a string");
+        Ok(())
+    }
+}
+
